@@ -13,7 +13,7 @@ KEEP = {
    panic_below_min_g4_pre below_min_reads_sse2_find below_min_reads_sse2_pre below_min_reads_avx2_pre m_finder_n2_sse2 m_oneshot_rev long_pre_f3_sse2_40 long_pre_f5_sse2_40 long_pre_f0_sse2_40 sse2_one_count""".split(),
  "C14": """tw_abstract_2_4_state tw_abstract_3_6 panic_below_min_sse2_find panic_below_min_sse2_pre panic_below_min_avx2_find
    panic_below_min_g4_pre fi_step_n0 fi_step_n2_rk fri_step_n0 g4_one_find g4_one_count swar_one_find swar_one_raw sse2_one_raw
-   avx2_two_raw c19_with_ranker_40 c19_with_ranker_257 c19_with_indices m_oneshot_fwd m_oneshot_rev m_finder_n2_sse2 long_pre_f3_sse2_40
+   avx2_two_raw c19_with_ranker_40 c19_with_ranker_long_258 c19_with_indices m_oneshot_fwd m_oneshot_rev m_finder_n2_sse2 long_pre_f3_sse2_40
    long_inert_f0_40 b_rk_fwd_33 pp_g4_find_n3 b_shiftor_16_8 it_swar1_step c18_raw_19 m_finder_n0 m_finder_rev_n0""".split(),
 }
 rx = re.compile(r"((?:inst|inst_noalloc)!\(\s*)(\w+)(\s*,\s*\[)(.*?)(\])", re.S)
